@@ -178,9 +178,9 @@ example : ∃ T₀ s T, TextTape.parse (TextTape.jrenderF
   refine C14_roundtrip_nested _ [10]
     (.cons (.raw ⟨false, [97]⟩) none (.obj (.raw ⟨false, [98]⟩) none (.scal (.raw ⟨false, [99]⟩)) .nil) .nil)
     32 3 (by decide +kernel) blank_nl ?_ (by decide +kernel) rfl ?_ ?_ (by decide +kernel)
-  · refine ⟨.nil, .nil, va, fun _ => .inr ⟨61, [], rfl, TextTape.bnd_eq⟩, ?_, trivial⟩
-    refine ⟨.nil, .nil, .nil, .nil, vb, fun _ => .inr ⟨61, [], rfl, TextTape.bnd_eq⟩, ?_, trivial⟩
-    exact ⟨.nil, vc, fun _ => .inr ⟨125, _, rfl, TextTape.bnd_close⟩⟩
+  · refine ⟨.nil, .nil, Or.inl va, fun _ => .inr ⟨61, [], rfl, TextTape.bnd_eq⟩, ?_, trivial⟩
+    refine ⟨.nil, .nil, .nil, .nil, Or.inl vb, fun _ => .inr ⟨61, [], rfl, TextTape.bnd_eq⟩, ?_, trivial⟩
+    exact ⟨.nil, Or.inl vc, fun _ => .inr ⟨125, _, rfl, TextTape.bnd_close⟩⟩
   · simp [CanonF, CanonV]
   · exact ⟨va, ⟨vb, vc, trivial⟩, trivial⟩
 
